@@ -94,6 +94,18 @@ CHECKS['C02'] = ('proof', 'Same semantics: MTS provides in-events run in dispatc
                  'stack-use-after-return for closures run after the caller frame died).',
                  'partial: as C01.', '§5 C02')
 
+CHECKS['C09'] = ('proof', 'Facilities part of the constructor as a function over locators: create gives the component a fresh locator = prototype + own '
+                 'dispatcher and runtime, throws on overlap, offers the accessor; import hands over the user\'s locator and dispatcher, throws when either '
+                 'is missing, no accessor; mem-initialisers only depend on earlier-declared members (Properties/C09.v). Leg B: both origins x all 8 '
+                 'locator contents on compiled shells (identities of locator/pump/runtime/extra service, which pump MTS events use, SFINAE probe for Locator()).',
+                 'partial: the facilities semantics is transcribed from the emitted FacilitiesCheck/constructor text (which the byte-exact builder model pins); '
+                 'its C++ meaning is validated by running, not proved.', '§5 C09')
+CHECKS['C10'] = ('proof', 'FinalConstruct over the slot state: succeeds iff every event slot of every checked object (each client of a multi-client port, the '
+                 'accessor target of every other exposed port, every port of the component) is bound; each single unbound event is detected '
+                 '(Properties/C10.v). Leg B: per compiled shell all-bound, then each single user-side event and each single component-side handler left unbound, '
+                 'late client registration refused; the multi-client port in every position among several provides ports.',
+                 'partial: as C09; mock check_bindings() tests every event (contract of Dezyne\'s generator).', '§5 C10')
+
 NOT_YET = {
 }
 
